@@ -111,10 +111,43 @@ fn d20_attribution(p: &Program, o: &Outcome, restricted: &mut Option<scm::ScResu
         scm::explore(p, m, SC_MAX_STATES)
     });
     if !r.truncated && !r.done.contains(o) {
-        "spurious-return-yields"
-    } else {
-        "unattributed"
+        return "spurious-return-yields";
     }
+    // the yield after the spurious return can be absorbed by an unrelated step of a third thread
+    // (an `unpark` of somebody, which nothing in the program waits for): D20 together with the
+    // D25 mechanism. Differential test: without that one operation the outcome is absent from
+    // the restricted reference.
+    for t in 0..p.threads.len() {
+        for i in 0..p.threads[t].len() {
+            if !matches!(p.threads[t][i].k, K::Unpark { .. }) || p.threads[t][i].g.is_some() || p.threads[t].iter().any(|x| x.g.as_ref().map(|g| g.idx == i).unwrap_or(false)) {
+                continue;
+            }
+            if p.threads.iter().flatten().any(|x| matches!(x.k, K::Park | K::ParkUntil { .. })) {
+                continue;
+            }
+            let mut q = p.clone();
+            q.threads[t].remove(i);
+            for x in q.threads[t].iter_mut() {
+                if let Some(g) = x.g.as_mut() {
+                    if g.idx > i {
+                        g.idx -= 1;
+                    }
+                }
+            }
+            let mut o2 = o.clone();
+            if i < o2[t].len() {
+                o2[t].remove(i);
+            }
+            let mut m = scm::Mode::explore(&q);
+            m.spur_yield = true;
+            let r2 = scm::explore(&q, m, SC_MAX_STATES);
+            let full = scm::explore(&q, scm::Mode::explore(&q), SC_MAX_STATES);
+            if !r2.truncated && !full.truncated && full.done.contains(&o2) && !r2.done.contains(&o2) {
+                return "spurious-return-yields-absorbed-by-unrelated-unpark";
+            }
+        }
+    }
+    "unattributed"
 }
 
 /// The program without its `yield_now` calls (None if a yield is guarded or a guard refers to it).
